@@ -206,3 +206,11 @@ def kani(tier):
     if tier != 'thorough': return []
     return [dict(harness='panic_inductive', oid='C15.k', covers=1, stubs=5, desc='SECOND ENGINE (Kani/CBMC on the compiled code): PanicState::{pause, unpause, unpause_if_expired} - one step from any state satisfying Inv at any later time preserves Inv; each pause pushes the paused-until time by <= 30 min, never > 60 min ahead; an expired pause never blocks',
                  functions=['marginfi::state::panic_state::PanicStateImpl::{pause, unpause, unpause_if_expired}', 'PanicState::{can_pause, is_expired}'], bounds='timestamps in [0, 2^40); all counter values; loop-free')]
+
+
+
+# ---------------------------------------------------------------- shared with C08.b: the Anchor constraint sets of this property's instructions (signer role, has_one = group, vault / PDA bindings)
+_t_shared_structs = tasks
+def tasks(tier):
+    from specs.C08 import shared_struct_tasks
+    return _t_shared_structs(tier) + shared_struct_tasks('C15.d.', ['PanicPause', 'PanicUnpause', 'PanicUnpausePermissionless', 'PropagateFee'])
